@@ -131,6 +131,20 @@ def generate(seed, tier):
                 qs.append(["o", off, ln])
             case["queries"] = qs
             cases.append(case)
+    # directed: Parallels v2 images whose *virtual size* needs more than 32 bits of sectors (>= 2 TiB): 32 MiB clusters, a sparse BAT
+    # with the first, a middle and the last cluster allocated; requests at the start, around 2 TiB and at the very end
+    wrng = random.Random(f"C13/{seed}/{tier}/c06-wide")
+    for i, size in enumerate([(1 << 32) + 5, (1 << 32) + 3 * 65536 + 7, 3 << 31, (1 << 33) + 12345][: 4 if tier == "quick" else 4]):
+        spc = 65536
+        ncl = (size + spc - 1) // spc
+        first = (64 + 4 * ncl + spc * 512 - 1) // (spc * 512)
+        phys = {"0": first, str(ncl // 2): first + 2, str((1 << 32) // spc): first + 1, str(ncl - 1): first + 3}
+        l = {"ver": 2, "spc": spc, "ncl": ncl, "size": size, "phys": phys, "seed": wrng.randrange(256), "skew": 0, "unused": 0}
+        case = {"id": f"c06-wide-{i}", "cls": "c06", "recipe": {"layers": [l]}, "align": 8192, "unit": spc * 512, "comp": False}
+        tot = size * 512
+        case["queries"] = [["o", 0, 4096], ["o", (1 << 41) - 4096, 8192], ["o", (1 << 41) + 512, 70000], ["o", tot - 300000, 300000],
+                           ["o", tot - 1, 1], ["o", (ncl // 2) * spc * 512 + 511, 8192]]
+        cases.append(case)
     return cases
 
 
